@@ -9,6 +9,9 @@ from hplverif import core
 
 
 def replay_regressions(ctx, mod):
+    if os.environ.get('VERIF_NO_REGRESSIONS'):
+        ctx.note('regression corpus skipped (VERIF_NO_REGRESSIONS)')
+        return
     d = os.path.join(core.REGRESSION_DIR, ctx.pid)
     files = sorted(glob.glob(os.path.join(d, '*.json')))
     subs = getattr(mod, 'SUBS', {})
